@@ -283,6 +283,39 @@ pub fn run_cb() -> i32 {
                     Err(_) => writeln!(out, "chain {} delivered=[] panicked=1", n).unwrap(),
                 }
             }
+            // yield N: task 0 wakes itself N times from inside its own poll (yield_now) before it completes; once it has
+            // been delivered task 1 is scheduled from outside: both must be delivered
+            "yield" => {
+                let n: usize = w[1].parse().unwrap();
+                struct YieldFut(usize);
+                impl Future for YieldFut {
+                    type Output = usize;
+                    fn poll(mut self: Pin<&mut Self>, cx: &mut Context<'_>) -> Poll<usize> {
+                        if self.0 == 0 {
+                            return Poll::Ready(0);
+                        }
+                        self.0 -= 1;
+                        cx.waker().wake_by_ref();
+                        Poll::Pending
+                    }
+                }
+                let mut el: EventLoop<'static, ()> = EventLoop::try_new().unwrap();
+                let (exec, scheduler) = executor::<usize>().unwrap();
+                let delivered = Rc::new(RefCell::new(Vec::new()));
+                let d2 = delivered.clone();
+                el.handle().insert_source(exec, move |r, _, _| d2.borrow_mut().push(r)).map_err(|e| e.error).unwrap();
+                scheduler.schedule(YieldFut(n)).unwrap();
+                let mut second = false;
+                for _ in 0..(2 * n + 8) {
+                    el.dispatch(Some(Duration::ZERO), &mut ()).unwrap();
+                    if !second && delivered.borrow().contains(&0) {
+                        scheduler.schedule(ReadyFut(1)).unwrap();
+                        second = true;
+                    }
+                }
+                let v = delivered.borrow().clone();
+                writeln!(out, "yield {} delivered=[{}]", n, v.iter().map(|x| x.to_string()).collect::<Vec<_>>().join(",")).unwrap();
+            }
             // stream N D: a StreamSource over a stream with N items ready at once, D dispatches: how many items came, in
             // order?, how many `None`s, is the source still in the loop
             "stream" => {
